@@ -4,7 +4,8 @@ namespace vf {
 const char *ntC08 = "non-trivial = history containing a resubmission of the same caller frame, or a caller-side mutation after a hand-over, followed by an observation; distinct by case text";
 CaseResult runC08(const Case &c, RunCtx &ctx) {
     CaseResult r;
-    Interp in(ctx);
+    Interp in(ctx, "C08");
+    in.allowUndeclaredFrames = true;      // the frame list semantics hold for every data set, also one without declarations
     FrameModelListener L(r, true); in.L = &L;
     in.run(c);
     r.nontrivial = L.resubmits || L.mutationsObserved;
